@@ -177,7 +177,7 @@ class Scale(EnvironmentFilter):
             for interaction in chain(fitting_interactions, remaining_interactions):
                 context = interaction['context']
                 for i,(shift,scale) in scaling_tuples:
-                    if context[i] is not None: context[i] = (context[i]+shift)*scale
+                    if isinstance(context[i],(int,float)): context[i] = (context[i]+shift)*scale
                 yield interaction
 
         if is_sparse_context:
@@ -186,7 +186,7 @@ class Scale(EnvironmentFilter):
                 context = interaction['context']
                 for k in scaling_dict.keys() & context.keys():
                     (shift,scale) = scaling_dict[k]
-                    if context[k] is not None: context[k] = (context[k]+shift)*scale
+                    if isinstance(context[k],(int,float)): context[k] = (context[k]+shift)*scale
                 yield interaction
 
         elif is_value_context:
